@@ -21,6 +21,10 @@ type MintDB interface {
 	GetPendingProofs(Ys []string) ([]DBProof, error)
 	GetPendingProofsByQuote(quoteId string) ([]DBProof, error)
 	RemovePendingProofs(Ys []string) error
+	// RemovePendingProofsByQuote removes the proofs from pending only if they
+	// are pending for the specified melt quote. Proofs that were meanwhile
+	// released and set as pending again by another quote are left untouched.
+	RemovePendingProofsByQuote(Ys []string, quoteId string) error
 	// SettlePendingProofs atomically removes the proofs from pending
 	// and adds them to the used proofs
 	SettlePendingProofs(Ys []string) error
